@@ -204,8 +204,14 @@ def run(tier, seed, replay=None, prop=PROP):
         shrunk = qtie.shrink_case(res.cases[i], diff_fails(tie))
         r2 = evaluate(tie, [("shrunk", shrunk)], envs)
         found = None
-        # search: more generated cases, oracle only, wider environments
-        for j in range(6 if not thorough else 40):
+        # search 1: the differing cases themselves (and the shrunk one) on many more environments
+        again = [("differs", shrunk)] + [("differs", res.cases[k]) for k in diffs[:40]]
+        r4 = evaluate(tie, again, envs * 40)
+        evaluations += len(again) * (1 + 40 * envs)
+        if any(qtie.complaint_kind(c[0]) != "skipped-too-big" for c in r4.complaints.values()):
+            found = r4
+        # search 2: more generated cases, oracle only, wider environments
+        for j in range(0 if found is not None else (6 if not thorough else 40)):
             extra = [("search", c) for c in tie.gen(seed * 7919 + 100000 + j, 400, j % 3)]
             r3 = evaluate(tie, extra, envs * 2)
             evaluations += len(extra) * (1 + 2 * envs)
